@@ -23,7 +23,7 @@ def strip(e, casts=False):
         if k == "CXXConstructExpr" and casts:
             # copy/move construction of a single argument is value-transparent
             ch = [c for c in inner(e) if isinstance(c, dict) and c.get("kind")]
-            if len(ch) == 1 and _same_class(qt(e), qt(ch[0])):
+            if len(ch) == 1 and (_same_class(qt(e), qt(ch[0])) or _same_class(_desug(e), _desug(ch[0])) or _is_copy_ctor(e)):
                 e = ch[0]
                 continue
         return e
@@ -33,6 +33,24 @@ def strip(e, casts=False):
 def _base_type(t):
     t = t.replace("const ", "").replace("&", "").replace("struct ", "").replace("class ", "").strip()
     return t
+
+
+def _desug(n):
+    t = n.get("type") or {}
+    return t.get("desugaredQualType") or t.get("qualType", "")
+
+
+def _is_copy_ctor(e):
+    """Constructor whose single parameter is a (const) reference to the constructed class."""
+    ct = (e.get("ctorType") or {}).get("qualType", "")
+    if "(" not in ct:
+        return False
+    par = ct[ct.find("(") + 1:ct.rfind(")")]
+    if "," in par.replace("<", "(").split("(")[0]:
+        return False
+    if not (par.rstrip().endswith("&")):
+        return False
+    return _base_type(par) in (_base_type(qt(e)), _base_type(_desug(e)))
 
 
 def _same_class(a, b):
